@@ -25,7 +25,7 @@ def tlc_cmd(module, cfg, workers, metadir, xmx="3g", extra=None):
 
 
 RE_STATES = re.compile(r"^(\d+) states generated, (\d+) distinct states found")
-RE_TUPLE = re.compile(r'^<<"(VIOL|DONE|QUERY|INFO)"')
+RE_TUPLE = re.compile(r'^<<"(VIOL|DONE|QUERY|INFO|DRIFT)"')
 
 
 def parse_tuple(line):
@@ -95,6 +95,7 @@ def validate_trace(trace, mode, metadir, log_path, trace2=None, timeout=1800, xm
     res["done"] = done[0] if done else None
     res["viols"] = [t for t in res["tuples"] if t[0] == "VIOL"]
     res["queries"] = [t for t in res["tuples"] if t[0] == "QUERY"]
+    res["drifts"] = [t for t in res["tuples"] if t[0] == "DRIFT"]
     return res
 
 
